@@ -117,7 +117,7 @@ func runPromStep(s *mwSession, st promStep) (events []M) {
 func genPromMsgs(r *Rng, g *EvGen, n int) []promStep {
 	// short ids, and long ids that share a long common prefix (keys must not be truncated or hashed)
 	long := "pppppppppppppppppppppppppppppppppppppppppppppppppppppppppppppppp"
-	subs := []string{"a", "b", "c", long + "-x", long + "-y", long + long + long + long + "1", long + long + long + long + "2"}
+	subs := []string{"a", "b", "c", "", long + "-x", long + "-y", long + long + long + long + "1", long + long + long + long + "2"}
 	var steps []promStep
 	for i := 0; i < n && mwStalls < 4; i++ {
 		switch r.Intn(12) {
